@@ -295,7 +295,7 @@ Proof.
   - assert (Hz : (N.of_nat (S k) =? 0) = false) by (apply N.eqb_neq; lia). rewrite Hz.
     replace (N.of_nat (S k) - 1) with (N.of_nat k) by lia.
     destruct (n <=? nth k ls 0) eqn:E.
-    + apply N.leb_le in E. rewrite (setid_loop_down chs ls n Hs T k (S k)); [|lia|lia|exact E].
+    + apply N.leb_le in E. rewrite (setid_loop_down chs ls n Hs T k (S (S k))); [|lia|lia|exact E].
       assert (B : (first_idx (geq n) ls <? S k)%nat = true).
       { apply Nat.ltb_lt. destruct (Nat.lt_ge_cases (first_idx (geq n) ls) (S k)) as [H|H]; [exact H|].
         pose proof (first_idx_false (geq n) 0 ls k ltac:(lia)) as F. apply geq_gt in F. lia. }
@@ -311,5 +311,129 @@ Proof.
       { apply Nat.ltb_ge. destruct (Nat.lt_ge_cases (first_idx (geq n) ls) (S k)) as [H|H]; [|exact H].
         pose proof (first_idx_true (geq n) 0 ls ltac:(lia)) as T1. apply geq_le in T1.
         pose proof (sorted_n_nth ls Hs (first_idx (geq n) ls) k ltac:(lia)). lia. }
-      rewrite B. f_equal. lia.
+      rewrite B. f_equal.
+Qed.
+
+(* ================= set ids grow by one per change ================= *)
+Lemma apply_forced_setid : forall v t s b s', apply_forced v t s b = Some s' ->
+  g_setid s' = g_setid s \/ g_setid s' = g_setid s + 1.
+Proof.
+  intros v t s b s'. unfold apply_forced.
+  destruct (lookup_where (forced_applicable_cond v t (g_fin s) b) (g_forced s)) as [[fc|]|]; [| |discriminate].
+  - destruct (lookup_where _ (g_roots s)) as [[n|]|]; try discriminate.
+    intros H. injection H as <-. right. reflexivity.
+  - intros H. injection H as <-. left. reflexivity.
+Qed.
+
+Lemma apply_scheduled_setid : forall v t s h,
+  g_setid (fst (apply_scheduled v t s h)) = g_setid s \/
+  g_setid (fst (apply_scheduled v t s h)) = g_setid s + 1.
+Proof.
+  intros v t s h. unfold apply_scheduled.
+  destruct (prune_keep v pc_blk t (g_fin s) h (g_forced s)) as [fo|]; [|left; reflexivity].
+  destruct (g_roots s) as [|r0 rs]; [left; reflexivity|].
+  destruct (lookup_where (sched_applicable_cond v t (g_fin s) h) (r0 :: rs)) as [[n|]|].
+  - right. reflexivity.
+  - destruct (if v_keep_ancestors v then _ else _); left; reflexivity.
+  - left. reflexivity.
+Qed.
+
+Lemma go_step_setid : forall v t sched forced s e,
+  g_setid (fst (go_step v t sched forced s e)) = g_setid s \/
+  g_setid (fst (go_step v t sched forced s e)) = g_setid s + 1.
+Proof.
+  intros v t sched forced s e. destruct e as [b|b]; cbn [go_step].
+  - assert (P : forall s1, (match cfind forced b with
+                            | Some c => add_forced v t s c
+                            | None => match cfind sched b with Some c => add_scheduled v t s c | None => Some s end
+                            end) = Some s1 -> g_setid s1 = g_setid s).
+    { intros s1. destruct (cfind forced b) as [c|].
+      - unfold add_forced. destruct (forced_check v t (g_fin s) (g_forced s) c) as [[|]|]; try discriminate.
+        intros H. injection H as <-. reflexivity.
+      - destruct (cfind sched b) as [c|].
+        + unfold add_scheduled. destruct (import_roots v t (g_fin s) c (g_roots s)); try discriminate.
+          intros H. injection H as <-. reflexivity.
+        + intros H. injection H as <-. reflexivity. }
+    destruct (match cfind forced b with Some c => _ | None => _ end) as [s1|] eqn:E; [|left; reflexivity].
+    specialize (P s1 eq_refl).
+    destruct (apply_forced v t s1 b) as [s2|] eqn:F; cbn [fst].
+    + destruct (apply_forced_setid v t s1 b s2 F) as [H|H]; rewrite H, P; auto.
+    + left. exact P.
+  - pose proof (apply_scheduled_setid v t
+      (mkgst (g_forced s) (g_roots s) (g_setid s) (g_auths s) (g_changes s) b) b) as H.
+    destruct (apply_scheduled v t _ b) as [s1 ok]. cbn [fst g_setid] in *. exact H.
+Qed.
+
+Lemma spec_step_setid : forall t sched forced q e q', spec_step t sched forced q e = Some q' ->
+  s_setid q' = s_setid q \/ s_setid q' = s_setid q + 1.
+Proof.
+  intros t sched forced q e q'. destruct e as [b|b]; cbn [spec_step].
+  - assert (P : forall q1, (match cfind forced b with
+                            | Some c => s_add_forced t q c
+                            | None => match cfind sched b with Some c => s_add_standard t q c | None => Some q end
+                            end) = Some q1 -> s_setid q1 = s_setid q).
+    { intros q1. destruct (cfind forced b) as [c|].
+      - unfold s_add_forced. destruct (s_forced_check t (s_forced q) c); try discriminate.
+        intros H. injection H as <-. reflexivity.
+      - destruct (cfind sched b) as [c|].
+        + unfold s_add_standard.
+          destruct (match s_bestfin q with Some bf => _ | None => false end); try discriminate.
+          destruct (s_import_roots_aux t c (s_roots q)) as [[r|]|]; try discriminate.
+          * intros H. injection H as <-. reflexivity.
+          * destruct (existsb _ (s_roots q)); try discriminate. intros H. injection H as <-. reflexivity.
+        + intros H. injection H as <-. reflexivity. }
+    destruct (match cfind forced b with Some c => _ | None => _ end) as [q1|] eqn:E; [|discriminate].
+    specialize (P q1 eq_refl). unfold s_apply_forced.
+    destruct (s_find_forced t b (s_forced q1)) as [fc|].
+    + destruct (existsb _ (s_roots q1)); [discriminate|]. intros H. injection H as <-.
+      right. cbn. rewrite P. reflexivity.
+    + intros H. injection H as <-. left. exact P.
+  - unfold s_finalise.
+    destruct (match s_bestfin q with Some bf => _ | None => false end); [discriminate|].
+    destruct (s_find_root t b (s_roots q)) as [[n|]|]; [| |discriminate].
+    + intros H. injection H as <-. right. reflexivity.
+    + destruct (negb _); intros H; injection H as <-; left; reflexivity.
+Qed.
+
+(* ================= the tree enumerator is complete ================= *)
+From C23 Require Import Enum.
+
+Lemma wf_from_snoc : forall t k p, wf_from k (t ++ [p]) = wf_from k t && (p <=? k + length t)%nat.
+Proof.
+  induction t as [|x t IH]; intros k p; cbn [app wf_from length].
+  - rewrite Nat.add_0_r, andb_true_r. reflexivity.
+  - rewrite IH. rewrite <- andb_assoc. f_equal. f_equal. f_equal. lia.
+Qed.
+
+Lemma trees_complete : forall t, wf t = true -> In t (trees (length t)).
+Proof.
+  induction t as [|p t IH] using rev_ind; intros W.
+  - left. reflexivity.
+  - unfold wf in W. rewrite wf_from_snoc in W. apply andb_true_iff in W. destruct W as [W1 W2].
+    rewrite app_length. cbn [length]. rewrite Nat.add_1_r. cbn [trees].
+    apply in_flat_map. exists t. split; [apply IH; exact W1|].
+    apply in_map_iff. exists p. split; [reflexivity|].
+    apply in_seq. apply Nat.leb_le in W2. lia.
+Qed.
+
+(* what `explore = true` says about one more event *)
+Lemma explore_step : forall f t sched forced imported fin g q e,
+  explore (S f) t sched forced imported fin g q = true ->
+  In e (next_events t imported fin) -> guard_forced_on_finalised t q e = false ->
+  match spec_step t sched forced q e with
+  | None => is_rok (snd (go_step fixed t sched forced g e)) = false
+  | Some q' =>
+    let g' := fst (go_step fixed t sched forced g e) in
+    let imported' := match e with Import b => b :: imported | Finalise _ => imported end in
+    let fin' := match e with Import _ => fin | Finalise b => b end in
+    is_rok (snd (go_step fixed t sched forced g e)) = true /\ obs_eq t imported' g' q' = true /\
+    explore f t sched forced imported' fin' g' q' = true
+  end.
+Proof.
+  intros f t sched forced imported fin g q e H Hin Hg. cbn [explore] in H.
+  rewrite forallb_forall in H. specialize (H e Hin). rewrite Hg in H.
+  destruct (go_step fixed t sched forced g e) as [g' r]. cbn [fst snd].
+  destruct (spec_step t sched forced q e) as [q'|].
+  - cbn zeta. apply andb_true_iff in H. destruct H as [H H3]. apply andb_true_iff in H. destruct H as [H1 H2]. auto.
+  - apply negb_true_iff in H. exact H.
 Qed.
